@@ -931,7 +931,20 @@ func (x *c15run) runLayout(cs C15Case, source string) {
 				k--
 			}
 			if cs.Items[k].Kind != 0 && i < len(obs) && i < len(exp) && exp[i].Typ == obs[i].Typ {
-				sig = literalSig(cs.Items[k])
+				// literal kind and the class of the first rune that is not reproduced
+				er, or := []rune(exp[i].Img), []rune(obs[i].Img)
+				j := 0
+				for j < len(er) && j < len(or) && er[j] == or[j] {
+					j++
+				}
+				cls := "end"
+				if j < len(er) {
+					cls = runeClass(er[j])
+					if aliasRune(er[j]) != er[j] {
+						cls = "alias-rune"
+					}
+				}
+				sig = fmt.Sprintf("%s-literal|%s", cs.Items[k].Class, cls)
 			} else {
 				sig = boundarySig(cs.Items, k)
 			}
@@ -1332,7 +1345,7 @@ func (x *c15run) malformed(r *Rng, n int) {
 }
 
 func cmdC15(seed int64, tier, outDir string) {
-	nProg, nLit, nMal := 1000, 300, 400
+	nProg, nLit, nMal := 750, 250, 300
 	if tier == "thorough" {
 		nProg, nLit, nMal = 40000, 10000, 12000
 	}
